@@ -9,7 +9,7 @@ LEVEL_WITHOUT_PROOF = "other"
 EXTRA_PROPS = ["Refinement"]
 
 CFG = dict(
-    mix=dict(create=4, assign=4, assign0=2, remove=3, build=3, destroynow=2, destroy=1, update=1, clone=1, cleararch=1, query=1, lock=1, unlock=1, dump=1, clear=0.2, createin=1, sassign=1, sremove=0.5),
+    mix=dict(create=4, assign=4, assign0=2, remove=3, build=3, destroynow=2, destroy=1, update=1, clone=1, cleararch=1, query=1, lock=1, unlock=1, dump=1, clear=0.2, createin=1, sassign=1, sremove=0.5, latescn=0.5),
     corpus=[x for x in "C02,C03".split(",")],
     n_quick=500, n_thorough=6000, len=(8, 45),
     gen=dict(lock_bias=0.12, storagecap=2, ndeps=2, shared=True),
